@@ -195,6 +195,18 @@ def rule_iso_claim(ctx, only_modules=None, rule="iso-claim"):
             data = kws.get("data")
             if data is None and is_ctor and c.args:
                 data = c.args[0]
+            # (iv) data made by the free function isometrize()/unitize(): the result has orthonormal columns only when the matrix
+            # is not wider than tall (else orthonormal rows), so the flagged side has to depend on the shape
+            if data is not None:
+                verdict = _isometrized_claim(g, c, data, kws["left_inds"], defs)
+                if verdict is not None:
+                    n_split[0] += 1
+                    okv, msg = verdict
+                    if okv:
+                        r.ok(f"{q}:{fn}[isometrized]", sample={"site": q, "claim": src_of(kws["left_inds"])[:30], "shape-dependent": msg})
+                    else:
+                        r.bad(Finding("iso-claim", q, msg, where=where, operand="isometrized-shape"))
+                    continue
             owner = _own_flag_source(kws["left_inds"], defs)
             if owner is not None:
                 n_own += 1
@@ -283,6 +295,50 @@ def rule_iso_claim(ctx, only_modules=None, rule="iso-claim"):
     if only_modules is None:
         r.floor(n_own - r.controls_flagged, 5, "sites re-asserting a tensor's own flag")
     return r
+
+
+def _isometrized_claim(g, claim_call, data, lv, defs):
+    """None when `data` does not come from the free function isometrize()/unitize() in g; else (ok, message)."""
+    def from_iso(e, depth=0):
+        if depth > 4 or e is None:
+            return False
+        if isinstance(e, ast.Call):
+            fn = dotted(e.func) or ""
+            if isinstance(e.func, ast.Name) and fn in ("isometrize", "unitize"):
+                return True
+            return any(from_iso(a, depth + 1) for a in e.args)
+        if isinstance(e, ast.Name) and e.id in defs:
+            return any(from_iso(d, depth + 1) for d in defs[e.id])
+        return False
+
+    if not from_iso(data):
+        return None
+    # the claimed side: some definition of it must sit under a test on the shape of the matrix (or the sizes of the index groups)
+    if isinstance(lv, ast.IfExp):
+        tests = [lv.test]
+    else:
+        tests = []
+    if isinstance(lv, ast.Name):
+        def visit(stmts, guards):
+            for s_ in stmts:
+                if isinstance(s_, ast.Assign) and any(isinstance(t, ast.Name) and t.id == lv.id for t in s_.targets) and guards:
+                    tests.extend(guards)
+                if isinstance(s_, ast.If):
+                    visit(s_.body, guards + [s_.test])
+                    visit(s_.orelse, guards + [s_.test])
+                elif isinstance(s_, (ast.For, ast.While, ast.With)):
+                    visit(s_.body, guards)
+                elif isinstance(s_, ast.Try):
+                    visit(s_.body, guards)
+        visit(g.node.body, [])
+    shape_dep = any(
+        (isinstance(x, ast.Attribute) and x.attr in ("shape", "size", "ndim")) or
+        (isinstance(x, ast.Call) and (dotted(x.func) or "").split(".")[-1] in ("ind_size", "inds_size", "prod", "shape", "size"))
+        for t in tests for x in ast.walk(t))
+    if shape_dep:
+        return True, "yes"
+    return False, (f"flags the result of isometrize() as isometric with respect to `{src_of(lv)[:30]}` whatever its shape: a matrix wider than tall only "
+                   "gets orthonormal rows, so the claimed side is wrong for it (a later canonization skips the tensor as 'already isometric')")
 
 
 def _split_factor_claim(g, claim_call, data):
